@@ -5,4 +5,4 @@ using namespace simd;
 using soct_t = split_oct_domain<z_number, varname_t, G_int64>;
 using D = lookahead_widening_domain<soct_t>;
 SIM_REGISTER_DOMAIN(lookahead_oct, D, "lookahead_oct",
-                    CAP_INT64 | CAP_NTOW)
+                    CAP_INT64 | CAP_NTOW | CAP_BACKWARD)
